@@ -37,7 +37,23 @@ func c19Years(c *ctx) {
 				rows = append(rows, row)
 			}
 		}
-		c.emit(obj{"ev": "C19Year", "y": y, "rows": rows})
+		// what the last two months of the year before print: distinct dates must print differently across the year end too
+		pre := []obj{}
+		if y > 1 {
+			for m := 11; m <= 12; m++ {
+				for d := 1; d <= 31; d++ {
+					s, p := safeSolar(y-1, m, d, 12, 0, 0)
+					if p {
+						continue
+					}
+					try(func() {
+						l := s.GetLunar()
+						pre = append(pre, obj{"ls": runes(l.String()), "ts": runes(l.GetTao().String()), "fs": runes(l.GetFoto().String())})
+					})
+				}
+			}
+		}
+		c.emit(obj{"ev": "C19Year", "y": y, "rows": rows, "pre": pre})
 	}
 }
 
